@@ -232,7 +232,7 @@ pub fn filters(data: &[u8]) {
         let bloom_bits = pick(&mut u, &[100usize, 1237, 64, 0]);
         while !u.is_empty() && ops.len() < 60 {
             let op = match u.int_in_range(0u8..=20).unwrap_or(0) {
-                0..=9 => props::c10::HOp::Push { keys: (0..u.int_in_range(0..=5).unwrap_or(0)).map(|_| if u.ratio(1, 2).unwrap_or(false) { [0, 0, u.int_in_range(0u8..=3).unwrap_or(0), u.int_in_range(0u8..=3).unwrap_or(0)] } else { u.arbitrary().unwrap_or([0; 4]) }).collect(), with_bloom: u.ratio(7, 10).unwrap_or(true), slow: u.ratio(1, 7).unwrap_or(false) },
+                0..=9 => props::c10::HOp::Push { keys: (0..u.int_in_range(0..=5).unwrap_or(0)).map(|_| if u.ratio(1, 2).unwrap_or(false) { [0, 0, u.int_in_range(0u8..=3).unwrap_or(0), u.int_in_range(0u8..=3).unwrap_or(0)] } else { u.arbitrary().unwrap_or([0; 4]) }).collect(), with_bloom: u.ratio(7, 10).unwrap_or(true), slow: u.ratio(1, 7).unwrap_or(false), no_filter: false },
                 10..=12 => props::c10::HOp::Pop,
                 13 | 14 => props::c10::HOp::Remove { sel: u.arbitrary().unwrap_or(0) },
                 15..=17 => props::c10::HOp::Offload { level: u.int_in_range(0u8..=3).unwrap_or(0), needed_small: u.arbitrary().unwrap_or(false) },
